@@ -19,7 +19,8 @@ from engine.values import SymInt
 from props import srv_world as W
 from props.c17 import explore, translator_validation
 
-ALPHABET = ["G", "C", "Lf", "Lr", "B-huge-length", "B-bad-zlib", "B-bad-brine", "B-truncated", "B-reset-early", "B-silent", "B-bad-token"]
+ALPHABET = ["G", "C", "Lf", "Lr", "B-huge-length", "B-bad-zlib", "B-bad-brine", "B-truncated", "B-reset-early", "B-silent", "B-bad-token",
+            "B-lying-KeyboardInterrupt", "B-lying-SystemExit"]
 KINDS = ["threaded", "pool", "forking"]
 
 
@@ -116,7 +117,8 @@ def main():
     thorough = run.tier == "thorough"
     run.assumptions = [
         "environment model (props/srv_world.py); misbehaving clients: absurd length field / corrupt compressed data / undecodable payload / truncated header "
-        "(then gone), reset before the server looks at the socket (getpeername fails), silent forever, wrong authentication token",
+        "(then gone), reset before the server looks at the socket (getpeername fails), silent forever, wrong authentication token, "
+        "a protocol-speaking client that answers the server's nested INSPECT question with an exception reply naming KeyboardInterrupt / SystemExit",
         "every misbehaving client that sends garbage eventually goes away (a client that leaves half a frame and stays pins one serving thread: outside the claim)",
         "schedules: one settled interleaving per history",
     ]
